@@ -46,10 +46,16 @@ func main() {
 	}
 
 	cfg := tables.StdCfg()
+	dcfgs := tables.DeadlineCfgs()
 	g := &tables.Gen{U: tables.StdUniverse(), Rng: rng}
 	nrun := 0
 	run := func(ops []string) {
 		nrun++
+		cfg := cfg
+		if nrun%4 == 1 { // a quarter of all histories runs under other deadlines (orderings, equal, tiny, huge)
+			cfg = dcfgs[rng.Intn(len(dcfgs))]
+			r.Stat("cfg.non-default-deadlines", 1)
+		}
 		if nrun%3 != 0 { // frames as raw bytes, a fifth of them damaged
 			ops = tables.RawOps(ops, rng, 20, func(k string) { r.Stat(k, 1) })
 		}
@@ -62,6 +68,23 @@ func main() {
 	nShort, nLong := 400, 600
 	if r.Thorough() {
 		nShort, nLong = 4000, 15000
+	}
+	// the three deadlines: every accepted ordering, equal, tiny and huge values; purges straddling each cutoff for an
+	// address offline by ageing and by IPv4 supersession
+	nDl := 12
+	if r.Thorough() {
+		nDl = 200
+	}
+	for _, dc := range dcfgs {
+		for i := 0; i < nDl; i++ {
+			ops := g.DeadlineHistory(dc)
+			if i%3 == 2 {
+				ops = tables.RawOps(ops, rng, 0, func(k string) { r.Stat(k, 1) })
+			}
+			ips, macs := tables.Candidates(dc, ops)
+			r.Do("t4", append([]string{dc.Tok(), "0", tables.IPsTok(ips), tables.MacsTok(macs)}, ops...)...)
+			r.Stat("class.deadlines", 1)
+		}
 	}
 	for i := 0; i < nShort; i++ {
 		run(g.History(1 + rng.Intn(3)))
